@@ -271,6 +271,9 @@ Proof.
   rewrite Forall_forall in Hok. specialize (Hok d Hin). rewrite Hoff in Hok. rewrite Hok. reflexivity.
 Qed.
 
+Definition types4_sig (u : unit) : option Z :=
+  match u_kind u with UKtypes4 s _ => Some s | _ => None end.
+
 (* DW_FORM_ref_sig8 naming a v4 type unit of .debug_types (no DWARF 5 type unit carries the signature) *)
 Theorem ref_sig8_types_exact (S : dsections) (info_us before : list unit) (u : unit) (after : list unit)
         (w : where_) (M0 : munit) (a : xattr) (sg toff : Z) (d : xdie) :
@@ -279,7 +282,7 @@ Theorem ref_sig8_types_exact (S : dsections) (info_us before : list unit) (u : u
   forallb unit_wf (before ++ u :: after) = true -> units_in (s_le S) true (before ++ u :: after) = true ->
   u_kind u = UKtypes4 sg toff ->
   (forall u', In u' info_us -> v5_type_sig u' <> Some sg) ->
-  (forall u', In u' after -> unit_sig u' <> Some (sg, match unit_sig u' with Some (_, t) => t | None => 0 end)) ->
+  (forall u', In u' after -> types4_sig u' <> Some sg) ->
   table_at (s_abbrev S) u ->
   let off := zlen (encode_section before) in
   xa_form a = EName "DW_FORM_ref_sig8" -> xa_raw a = RInt sg ->
@@ -310,9 +313,10 @@ Proof.
   2: { intros U' HU'. destruct (in_expect_units _ _ _ HU') as (u' & o' & Hin & ->).
        assert (Ht4 : is_types4 (u_kind u') = true).
        { unfold units_in in Hkt. rewrite forallb_forall in Hkt.
-         specialize (Hkt u' (in_or_app _ _ _ (or_intror (or_intror Hin)))).
+         assert (Hin' : In u' (before ++ u :: after)) by (apply in_or_app; right; right; exact Hin).
+         specialize (Hkt u' Hin').
          apply andb_prop in Hkt. destruct Hkt as [_ Hkt]. apply Bool.eqb_prop in Hkt. exact Hkt. }
-       specialize (Huniq u' Hin). unfold unit_sig in Huniq.
+       specialize (Huniq u' Hin). unfold types4_sig in Huniq.
        unfold expect_unit_ctx, expect_uctx. cbn [uc_fields].
        destruct (u_kind u') as [ | | | | | | |s t]; try discriminate Ht4. cbn. intros ->. apply Huniq. reflexivity. }
   rewrite <- Htypes.
